@@ -44,12 +44,17 @@ def render(p, rng, types_of):
             return ind + "DIM %s%s AS %s" % ("SHARED " if s["shared"] else "", nm(s["b"], "", rng), TN[s["t"]])
         if k == "dimsfx":
             return ind + "DIM %s%s" % ("SHARED " if s["shared"] else "", nm(s["b"], s["sfx"], rng))
+        if k == "const" and s.get("ref"):
+            return ind + "CONST %s = %s" % (nm(s["b"], s["sfx"], rng), nm(s["ref"], "", rng))
         if k == "const":
             return ind + "CONST %s = %s" % (nm(s["b"], s["sfx"], rng), val_text(s["vt"], s["id"]))
         if k == "call":
             return ind + "P"
         if k == "printlit":
             return ind + 'PRINT "%s"' % "".join(chr(c) for c in s["text"])
+        if k == "def":
+            lo, hi = chr(s["lo"]), chr(s["hi"])
+            return ind + ("%s %s-%s" % (DEFKW[s["t"]], lo, hi) if lo != hi else "%s %s" % (DEFKW[s["t"]], lo))
         raise ValueError(k)
 
     for s in p["main"]:
@@ -85,10 +90,14 @@ def build(defs, main_ops, sub_ops):
     ext_main, ext_sub = {}, {}
     shared_ext = {}
 
+    cur = {"defs": list(defs)}
+
     def fix(ops, sc):
         out = []
         for o in ops:
             o = dict(o)
+            if o["k"] == "def":
+                cur["defs"] = cur["defs"] + [{"t": o["t"], "lo": o["lo"], "hi": o["hi"]}]
             ext = ext_main if sc == "main" else ext_sub
             if o["k"] == "dimas":
                 ext.setdefault(o["b"], o["t"])
@@ -104,7 +113,7 @@ def build(defs, main_ops, sub_ops):
                 elif sc == "sub" and o["b"] in shared_ext:
                     o["vt"] = shared_ext[o["b"]]
                 else:
-                    o["vt"] = resolve_type(defs, o["c"], o["sfx"])
+                    o["vt"] = resolve_type(cur["defs"], o["c"], o["sfx"])
             out.append(o)
         return out
     # the closing PRINTs: a base declared AS type or as a constant in main is only printed bare
@@ -168,6 +177,28 @@ def gen(tier, rng):
                     main.append(mk("print", b, sfx=s))
                 main.append({"k": "call"})
                 progs.append(("deftype", build(d, main, [mk("print", b, sfx="")])))
+    # DEFtype statements in the middle of the main module: they govern the names that follow them, and the SUB
+    for t in TYPES:
+        for t0 in [None] + [x for x in TYPES if x != t][:2]:
+            for b in ("A", "M"):
+                for lo, hi in ((65, 90), (ord(b[0]), ord(b[0]))):
+                    d0 = [{"t": t0, "lo": 65, "hi": 90}] if t0 else []
+                    dstmt = {"k": "def", "b": b, "c": ord(b[0]), "t": t, "lo": lo, "hi": hi}
+                    main = [mk("let", b, sfx=""), mk("print", b, sfx=""), dstmt, mk("print", b, sfx=""), mk("let", b, sfx=""), mk("print", b, sfx="")]
+                    main += [mk("print", b, sfx=x) for x in SFX] + [{"k": "call"}]
+                    progs.append(("defpos", build(d0, main, [mk("print", b, sfx=""), mk("let", b, sfx=""), mk("print", b, sfx=""), mk("print", b, sfx=t)])))
+    # a constant defined from another constant: the name on the right resolves in the scope of the definition
+    for gsfx in ("", "$"):
+        for local_first in (True, False):
+            for where in ("sub", "main"):
+                ref = {"ref": "A", "refc": 65}
+                if where == "sub":
+                    sub_ops = ([mk("const", "A", sfx=gsfx)] if local_first else []) + [dict(mk("const", "B", sfx=""), **ref), mk("print", "B", sfx=""), mk("print", "A", sfx="")]
+                    main = [mk("const", "A", sfx=gsfx), {"k": "call"}, mk("print", "A", sfx="")]
+                else:
+                    sub_ops = [mk("print", "A", sfx="")]
+                    main = [mk("const", "A", sfx=gsfx), dict(mk("const", "B", sfx=""), **ref), mk("print", "B", sfx=""), {"k": "call"}]
+                progs.append(("const-ref", build([], main, sub_ops)))
     # all 1- and 2-statement declaration/use histories in main (then all names printed), x DEFtype sets
     ds_few = defsets[:1] + rng.sample(defsets[1:], 3 if tier == "quick" else 8)
     for d in ds_few:
